@@ -102,6 +102,9 @@ pub struct Cfg {
     pub timeout_ms: u64,
     /// larger `C` payloads so that mutate messages split
     pub big: bool,
+    /// allow `ChildOf` under a visibility list: the caller guarantees that a group is visible as a whole (C10)
+    #[serde(default)]
+    pub children_any_vis: bool,
 }
 
 impl Default for Cfg {
@@ -125,6 +128,7 @@ impl Default for Cfg {
             slots: 5,
             timeout_ms: 10_000,
             big: false,
+            children_any_vis: false,
         }
     }
 }
@@ -137,6 +141,8 @@ pub enum Step {
     Insert { slot: usize, k: K },
     Remove { slot: usize, k: K },
     Mutate { slot: usize, k: K },
+    /// mutate the payload component `C` in place to a given padding length
+    Resize { slot: usize, len: u16 },
     SetRef { slot: usize, target: usize },
     DelRef { slot: usize },
     SetParent { slot: usize, parent: usize },
